@@ -77,6 +77,7 @@ class Tracer:
         self.corekeys = {}
         self.installed = False
         self.saved = {}
+        self.flags = set()    # trigger conditions of known findings seen during the history
 
     # -- registry -----------------------------------------------------------
     def register(self, tree):
@@ -127,6 +128,8 @@ class Tracer:
             return CT.__dict__[name]
 
         def composite(name, mk_event, changes=lambda self, *a, **k: True):
+            if name not in CT.__dict__:
+                return          # a primitive the code no longer has: the traces will say so
             orig = save(name)
 
             def w(self, *a, **k):
@@ -180,6 +183,12 @@ class Tracer:
                             k["project"] = a[0]
                             a = ()
                         tree = self if inplace else self.copy()
+                        if name == "remove_ind":
+                            rt = tree.info.get(tree.root, {})
+                            if ind in tree.output and "size" in rt and "legs" not in rt:
+                                # trigger of known finding C04 key=anneal_remove_output_ind: the root
+                                # was created with a precomputed size and its legs were never asked for
+                                tr.flags.add("anneal_remove_output_ind")
                         tr.emit(tree, (name, ind, k.get("project")) if name == "remove_ind" else (name, ind))
                         tr.depth += 1
                         try:
@@ -612,6 +621,10 @@ def check_costs(tree, net):
     for node in fresh.info:
         for g in ("get_legs", "get_involved", "get_size", "get_flops"):
             x, y = getattr(tree, g)(node), getattr(fresh, g)(node)
+            if g in ("get_legs", "get_involved"):
+                # the property speaks of index SETS (the counts of the root's legs are documented as
+                # irrelevant); the exact dicts are compared by the model correspondence
+                x, y = set(x), set(y)
             if x != y:
                 return "%s(%s) = %r, rebuild says %r" % (g, sorted(node), x, y)
     if not fresh.has_preprocessing() and False:
@@ -644,6 +657,22 @@ def check_costs(tree, net):
             return "node %s: legs %r involved %r size %r flops %r; specification %r %r %r %r" % (
                 sorted(S), tree.get_legs(S), tree.get_involved(S), tree.get_size(S), tree.get_flops(S),
                 sorted(surv), sorted(inv), size, flops)
+    return None
+
+
+def classify_known(mode, bad, flags):
+    """KNOWN_FINDINGS key of an oracle failure, or None.
+    key=anneal_remove_output_ind (C04): during this history remove_ind(<output index>) ran on a tree
+    whose root had a cached size but no cached legs (root re-created by simulated annealing with a
+    precomputed size), AND the failure is confined to the size/write figures (flops, legs and involved
+    agree with the rebuild).  Anything else is reported as a violation."""
+    if mode == "C04" and "anneal_remove_output_ind" in flags:
+        import re
+        m = re.match(r"contract_stats \{'flops': (\d+), .*rebuild \{'flops': (\d+),", bad)
+        if m and m.group(1) == m.group(2):
+            return "anneal_remove_output_ind"
+        if bad.startswith(("total_write", "max_size", "peak_size", "get_size(")):
+            return "anneal_remove_output_ind"
     return None
 
 
@@ -773,21 +802,28 @@ def run_history(hist, mode, with_model=True, check_every=True):
             if any(s.project is not None for s in tree.sliced_inds.values()):
                 feat("projected_state")
             # ---- oracle --------------------------------------------------------
-            tr.active = True     # queries are part of the history (their trace is discarded)
+            # queries / contractions are themselves operations of the history (they fill caches):
+            # half of the histories probe the tree itself, the other half an untraced copy, so that
+            # a defect which only shows while some cache is still EMPTY is not masked by the probing
+            direct = hist.get("probe", "direct") == "direct"
+            tr.active = direct   # (the trace of a direct probe is discarded)
+            probe = tree if direct else tree.copy()
+            feat("probe_direct" if direct else "probe_copy")
             if mode == "C04":
-                bad = check_costs(tree, net)
+                bad = check_costs(probe, net)
             else:
                 cop = op if op["kind"] == "contract" else {
                     "order": ["dfs", None, "random"][(si + hist.get("aseed", 0)) % 3],
                     "prefer_einsum": (si + hist.get("aseed", 0)) % 2 == 1,
                     "implementation": [None, "cotengra", "autoray"][(si // 2 + hist.get("aseed", 0)) % 3],
                     "oseed": si}
-                bad = check_value(tree, net, arrays, cop, dense_cache)
+                bad = check_value(probe, net, arrays, cop, dense_cache)
                 if bad is None and tree.multiplicity > 1:
                     feat("contract_sliced")
             tr.active = False
             if bad:
                 res["failure"] = {"step": si, "kind": "oracle", "what": "after %s: %s" % (op["kind"], bad)}
+                res["failure"]["key"] = classify_known(mode, bad, tr.flags)
                 return res
             if shadow is not None and mode == "C04" and shadow[0] is not tree:
                 s2 = shadow[0].copy()
@@ -832,7 +868,7 @@ def shrink(hist, mode, fail0, limit=20.0):
             if not trial["ops"]:
                 continue
             r = run_history(trial, mode, with_model=False)
-            if r["failure"] is not None and r["failure"]["kind"] == sig:
+            if r["failure"] is not None and r["failure"]["kind"] == sig and r["failure"].get("key") == fail0.get("key"):
                 cur, best_fail, changed = trial, r["failure"], True
                 break
             if time.time() - t0 > limit:
@@ -873,7 +909,8 @@ def make_history(rng, mode, quick=True):
     path = gen.rand_path(rng, len(inputs))
     ops = gen_ops(rng, inputs, output, size_dict, rng.randint(3, 10), mode)
     return {"inputs": [list(t) for t in inputs], "output": list(output), "size_dict": size_dict,
-            "path": [list(p) for p in path], "ops": ops, "aseed": rng.randrange(1000)}
+            "path": [list(p) for p in path], "ops": ops, "aseed": rng.randrange(1000),
+            "probe": rng.choice(["direct", "copy"])}
 
 
 def load_corpus(prop):
@@ -893,7 +930,7 @@ def run_property(ctx, mode):
     if not standard_proof_steps(ctx):
         return
     rng = ctx.rng
-    nh = ctx.n(110, 1500)
+    nh = ctx.n(300, 5000)
     hists = load_corpus(mode)
     ncorpus = len(hists)
     for _ in range(nh):
@@ -919,11 +956,11 @@ def run_property(ctx, mode):
         if r["failure"] is not None:
             f = r.get("shrunk_failure") or r["failure"]
             small = r.get("shrunk") or h
-            rep = {"history": {k: small[k] for k in ("inputs", "output", "size_dict", "path", "ops", "aseed") if k in small},
+            rep = {"history": {k: small[k] for k in ("inputs", "output", "size_dict", "path", "ops", "aseed", "probe") if k in small},
                    "failed_at_step": f["step"], "failure": f, "original_length": len(h["ops"]),
                    "corpus_file": h.get("_corpus"), "mode": mode,
                    "how_to_replay": "PYTHONPATH=/repo:harness /venv/bin/python harness/props/c04.py --replay-history FILE"}
-            ctx.fail("%s: %s" % (f["kind"], f["what"]), rep, found_input=True)
+            ctx.fail("%s: %s" % (f["kind"], f["what"]), rep, key=f.get("key"), found_input=True)
         for s in r["steps"]:
             lhs = "mobs (mrun %s %s [(%d, %s)]) %d" % (
                 gen.net_lit([tuple(t) for t in h["inputs"]], tuple(h["output"]), h["size_dict"]),
@@ -939,7 +976,7 @@ def run_property(ctx, mode):
     for idx, label, val in failing[:5]:
         h, s = caserec[idx] if idx < len(caserec) else ({}, {})
         ctx.fail("model (Model/TreeState.v) and implementation disagree on the state after a traced step",
-                 {"label": label, "history": {k: h.get(k) for k in ("inputs", "output", "size_dict", "path", "ops", "aseed")},
+                 {"label": label, "history": {k: h.get(k) for k in ("inputs", "output", "size_dict", "path", "ops", "aseed", "probe")},
                   "step": s.get("step"), "op": s.get("kind"), "trace": s.get("trace_json"),
                   "pre": s.get("pre"), "post_observed": s.get("post"), "model_value": val,
                   "correspondence": "primitive trace replayed by Model/TreeState.v mrun vs observed tree state"},
